@@ -128,7 +128,14 @@ pub fn run(args: &[&str]) -> Option<String> {
                 rowan::TokenAtOffset::Single(t) => t,
                 rowan::TokenAtOffset::Between(_, r) => r,
             };
-            let ks: Vec<String> = tok.parent_ancestors().map(|n| format!("{:?}", n.kind())).collect();
+            // `~` marks a node without a `{` token of its own among its direct children
+            let ks: Vec<String> = tok
+                .parent_ancestors()
+                .map(|n| {
+                    let own = n.children_with_tokens().any(|c| c.as_token().map(|t| t.text() == "{").unwrap_or(false));
+                    format!("{:?}{}", n.kind(), if own { "" } else { "~" })
+                })
+                .collect();
             Some(format!("{:?} {}", tok.kind(), ks.join("/")))
         }
         ["lex", h] => {
